@@ -3,7 +3,7 @@
     (packets per connection, closes, deadline in force, log appends, inter-node calls, listings)
     is compared.  Broker-chosen packet identifiers are not compared between model and
     implementation (their assignment depends on Go map order); the identifier discipline is
-    checked by the oracle on the real trace. *)
+    checked by the oracle (Corr/BrokerSpec.v) on the real trace. *)
 From Wasp Require Export Model.Base Spec.MatchSpec Model.DState Model.IdPool Model.Mount Model.Node.
 From Wasp Require Import Corr.DState.
 From Wasp Require Export Corr.BrokerSpec.
@@ -37,18 +37,6 @@ Definition eobs_eqb (a b : eobs) : bool :=
     Nat.eqb n n' && perm_eqb smeta_eqb ss ss' && perm_eqb sub_eqb sb sb' && perm_eqb String.eqb rg rg' && Nat.eqb pd pd'
   | _, _ => false
   end.
-
-(* broker-chosen identifiers appearing in a step, over all connections: which connection gets
-   which depends on map order, the multiset does not *)
-Fixpoint zinsert (x : Z) (l : list Z) : list Z :=
-  match l with [] => [x] | y :: l' => if x <=? y then x :: l else y :: zinsert x l' end.
-Definition step_mids (obs : list eobs) : list Z :=
-  fold_right zinsert [] (flat_map (fun o => match o with
-                                            | Out _ (OPublish _ _ q _ _ m) => if 0 <? q then [m] else []
-                                            (* a PUBREL answers ONE subscriber's PUBREC: which identifier that subscriber
-                                               holds is the map-order-dependent part; the oracle checks it against the
-                                               identifier seen on that connection (demands 44 and 70) *)
-                                            | _ => [] end) obs).
 
 Definition model_step (st : cluster * seen_t * bool) (s : estep) : cluster * seen_t * bool :=
   let '(cl, seen, ok) := st in
